@@ -835,6 +835,136 @@ def check_angles(ctx, have_spec):
 
 # ----------------------------------------------------------------------------
 
+# ----------------------------------------------------------------------------
+# storage types, caller-owned arrays, multi-call histories
+# ----------------------------------------------------------------------------
+
+GC_STORAGES = ['f4', 'i8', 'i4', 'i2', 'u2', '>f8', '>f4', '>i4', 'noncontig', 'list', 'pyint', 'npint32', 'npuint16', 'npfloat32', 'quantity']
+INT_STORAGES = ('i8', 'i4', 'i2', 'u2', '>i4', 'pyint', 'npint32', 'npuint16')
+UNSIGNED = ('u2', 'npuint16')
+
+
+def same_results(a, b):
+    """equality of two impl results (floats bit-identical, 'nan' strings equal)"""
+    return a == b
+
+
+def check_storage_history(ctx, viol):
+    rng = ctx.rng
+    jobs = []
+    # ---- gcirc: the same numbers in other storage types must give the float64 answer
+    for units in (0, 1, 2):
+        for st in GC_STORAGES:
+            if st == 'quantity' and units != 2:
+                continue
+            pts = []
+            for _ in range(ctx.n(6, 24)):
+                if st in INT_STORAGES:
+                    lo = 0 if st in UNSIGNED else -1
+                    if units == 2:
+                        p = [rng.randint(0, 359), rng.randint(0 if st in UNSIGNED else -90, 90), rng.randint(0, 359), rng.randint(0 if st in UNSIGNED else -90, 90)]
+                    elif units == 1:
+                        p = [rng.randint(0, 23), rng.randint(0 if st in UNSIGNED else -90, 90), rng.randint(0, 23), rng.randint(0 if st in UNSIGNED else -90, 90)]
+                    else:
+                        p = [rng.randint(0, 6), rng.randint(lo, 1), rng.randint(0, 6), rng.randint(lo, 1)]
+                    if p[0] == p[2] and p[1] == p[3]:
+                        p[2] = (p[2] + 1) % 6
+                else:
+                    ra, dec = C.dyadic(rng, 0, 359, 6), C.dyadic(rng, -80, 80, 6)
+                    ra2, dec2 = destination(ra, dec, rng.uniform(0, 6.28), rng.choice([1e-3, 1e-2, 1.0, 30.0, 100.0]))
+                    if rng.random() < 0.3:
+                        ra2, dec2 = (ra + 359.0) % 360.0, dec + 1.0     # large RA difference
+                    p = to_units([ra, dec, ra2, dec2], units)
+                pts.append(p)
+            jobs.append({'op': 'gcirc_storage', 'units': units, 'storage': st, 'pts': pts})
+    # ---- angles <-> vectors
+    for lat in (False, True):
+        for st in ('f4', '>f8', '>f4', 'i4', 'i8', 'noncontig', 'fortran'):
+            pts = []
+            for _ in range(ctx.n(8, 30)):
+                if st in ('i4', 'i8'):
+                    th = rng.randint(1, 179)
+                    pts.append([rng.randint(-360, 360), 90 - th if lat else th])
+                else:
+                    th = C.dyadic(rng, 0.5, 179.5, 6)
+                    pts.append([C.dyadic(rng, -360, 360, 6), 90.0 - th if lat else th])
+            jobs.append({'op': 'angles_storage', 'latitude': lat, 'storage': st, 'pts': pts})
+    # ---- frames
+    for st in ('f4', '>f8', 'i4', 'noncontig'):
+        for stripe in (rng.choice([0, 9, 25, 61]), rng.choice([45, 47, 82, 86])):
+            n = ctx.n(8, 30)
+            if st == 'i4':
+                lon, lat_ = [rng.randint(0, 359) for _ in range(n)], [rng.randint(-89, 89) for _ in range(n)]
+            else:
+                lon, lat_ = [C.dyadic(rng, 0, 359, 6) for _ in range(n)], [C.dyadic(rng, -89, 89, 6) for _ in range(n)]
+            jobs.append({'op': rng.choice(['r2m2r', 'm2r2m']), 'stripe': stripe, 'lon': lon, 'lat': lat_, 'storage': st})
+    # ---- a multi-call history in one process, and every call of it alone in a fresh process
+    hist = []
+    g = [[10.25, 20.5, 13.0, 25.75], [200.5, -45.0, 190.25, -40.5], [0.0, 0.0, 359.0, 1.0]]
+    for stripe in (10, 45, 82):
+        hist.append({'op': 'r2m2r', 'stripe': stripe, 'lon': [0.0, 95.0, 200.5, 311.25], 'lat': [90.0, 0.0, -45.5, 12.25]})
+        hist.append({'op': 'm2r2m', 'stripe': stripe, 'lon': [95.0, 10.5, 275.0], 'lat': [0.0, 33.25, -80.0]})
+        hist.append({'op': 'gcirc', 'units': rng.choice([0, 1, 2]), 'mode': 'array', 'pts': g, 'default_units': False})
+        hist.append({'op': 'angles', 'latitude': bool(stripe % 2), 'pts': [[10.0, 20.0], [200.0, 45.0]]})
+        hist.append({'op': 'stripe', 'stripes': [stripe, 10, 82], 'type': rng.choice(['int', 'uint8', 'float']), 'frame': True})
+    rng.shuffle(hist)
+    hist = hist + hist[:4]          # some calls twice
+    payloads = [[{'op': 'history', 'calls': hist}]] + [[c] for c in hist] + [jobs[k::4] for k in range(4)]
+    outs = C.run_impl_parallel('c18_impl.py', payloads)
+    whole = outs[0]['results'][0]
+    if 'err' in whole:
+        viol('C18:history:impl-error', 'history run raised %s' % whole, {'kind': 'failing-input', 'history': hist}, True)
+    else:
+        for k, (c, r_hist, o) in enumerate(zip(hist, whole['results'], outs[1:1 + len(hist)])):
+            r_alone = o['results'][0]
+            if r_hist != r_alone:
+                viol('C18:history:%s' % c['op'], 'call #%d (%s) answers differently after %d earlier calls in the same process than alone'
+                     % (k, c['op'], k), {'kind': 'failing-input', 'input': {'history': hist[:k], 'call': c}, 'in_history': r_hist,
+                                         'alone': r_alone}, True)
+    results = [None] * len(jobs)
+    for k, o in enumerate(outs[1 + len(hist):]):
+        for i, r in enumerate(o['results']):
+            results[k + i * 4] = r
+    nvals = 0
+    for job, r in zip(jobs, results):
+        op, st = job['op'], job['storage']
+        rep0 = {'kind': 'failing-input', 'input': {k: job[k] for k in job if k != 'op'}, 'op': op, 'impl_result': r}
+        if 'err' in r:
+            viol('C18:%s:storage-type' % op.split('_')[0], '%s raised %s for %s input: %s' % (op, r['err'], st, r.get('msg')), rep0, True)
+            continue
+        if not r.get('input_unchanged', True):
+            viol('C18:%s:input-modified' % op.split('_')[0], '%s modified its %s input' % (op, st), rep0, True)
+        if r.get('aliases_input'):
+            viol('C18:%s:result-aliases-input' % op.split('_')[0], 'the result of %s shares memory with its %s input' % (op, st), rep0, True)
+        if op == 'gcirc_storage':
+            for p, d, ref in zip(job['pts'], r['d'], r['ref']):
+                nvals += 1
+                if not isnum(d) or not isnum(ref) or abs(d - ref) > 1e-6 * abs(ref) + 1e-13:
+                    viol('C18:gcirc:storage-type', 'gcirc of %r stored as %s (units=%d) = %r, the same numbers as float64 give %r'
+                         % (p, st, job['units'], d, ref), dict(rep0, point=p, got=d, float64_answer=ref), True)
+                    break
+        elif op == 'angles_storage':
+            tol = 3e-5 if 'f4' in st else 1e-9
+            for p, x, xr, b, br in zip(job['pts'], r['x'], r['x_ref'], r['back'], r['back_ref']):
+                nvals += 1
+                bad = (not all(isnum(t) for t in x + b) or max(abs(s_ - t) for s_, t in zip(x, xr)) > tol or
+                       abs((b[0] - br[0] + 180.0) % 360.0 - 180.0) > tol * 60 or abs(b[1] - br[1]) > tol * 60)
+                if bad:
+                    viol('C18:angles:storage-type', 'angles_to_x / x_to_angles of %r stored as %s (latitude=%s): x = %r, back = %r; as float64: x = %r, back = %r'
+                         % (p, st, job['latitude'], x, b, xr, br), dict(rep0, point=p), True)
+                    break
+        else:
+            tol = 3e-6 if st == 'f4' else 2e-7
+            for k in range(len(job['lon'])):
+                nvals += 1
+                vals = (r['lon1'][k], r['lat1'][k], r['lon2'][k], r['lat2'][k])
+                if not all(isnum(v) for v in vals) or chord_sep(vec_deg(job['lon'][k], job['lat'][k]), vec_deg(vals[2], vals[3])) > tol:
+                    viol('C18:munu:storage-type', '%s with %s coordinates: stripe %d, (%r, %r) -> (%r, %r) -> (%r, %r)'
+                         % (op, st, job['stripe'], job['lon'][k], job['lat'][k], *vals), rep0, True)
+                    break
+    return {'values': nvals, 'history_calls': len(hist), 'storage_jobs': len(jobs)}
+
+
 def correspond(ctx, proof_ok=True):
     ok, log = C.coq_make(['C18/SpecProofs.vo'])
     have_spec = ok
@@ -844,6 +974,13 @@ def correspond(ctx, proof_ok=True):
     g = check_gcirc(ctx, have_spec)
     m = check_munu(ctx, have_spec)
     a = check_angles(ctx, have_spec)
+    seen_sh = set()
+
+    def viol_sh(sig, why, rep, found=True):
+        if sig not in seen_sh:
+            seen_sh.add(sig)
+            ctx.violation(sig, why, rep, found)
+    sh = check_storage_history(ctx, viol_sh)
     nl = g['n_lemmas'] + m['n_lemmas'] + a['n_lemmas']
     ctx.coverage.update({
         'evaluations': len(g['results']) * 2 + g['scanned'] + 2 * m['points'] + 2 * a['points'],
@@ -862,6 +999,7 @@ def correspond(ctx, proof_ok=True):
         'munu_stripes': m['stripes'], 'munu_points': m['points'],
         'munu_worst_roundtrip_rad': m['worst_roundtrip_rad'], 'munu_worst_isometry_rad': m['worst_isometry_rad'],
         'angles_points': a['points'],
+        'storage_type_values': sh['values'], 'storage_type_jobs': sh['storage_jobs'], 'history_calls': sh['history_calls'],
         'samples': [{'gcirc_case': g['cases'][0], 'impl': g['results'].get(0), 'coq_lemma': g['sample_lemma']},
                     {'munu': m['sample'], 'coq_lemma': m['sample_lemma']}],
     })
